@@ -1,6 +1,388 @@
-//! C01 — not implemented yet.
-use crate::core::Ctx;
-use serde_json::Value;
+//! C01 — routing dispatches each request to the handler of the matching route (DESIGN §5 C01).
+//!
+//! configuration = (route set with method sets) × declaration shape × registration order;
+//! every configuration is built through the real registration/finalization code and queried with
+//! every request of a per-configuration alphabet through the real read → router → send path.
+//! Oracles: (1) reference matcher (set of admissible readings), (2) differential across shapes/orders.
 
-pub fn run(ctx: &mut Ctx) { ctx.machinery_error("C01 engine not implemented".into()); }
-pub fn replay(ctx: &mut Ctx, _case: &Value) { ctx.machinery_error("C01 engine not implemented".into()); }
+use crate::app::{self, Outcome};
+use crate::appgen::{self, AppDesc, ItemDesc, MethodDesc};
+use crate::core::{combinations, panic_kind, permutations, Ctx};
+use crate::refmodel::router::{admissible, is_param, Entry, Match};
+use serde_json::{json, Value};
+use std::collections::BTreeSet;
+
+pub const SEGS: [&str; 4] = ["a", "ab", "b", ":p"];
+
+#[derive(Clone, Debug, PartialEq, Eq)]
+pub struct RouteSpec { pub segs: Vec<String>, pub methods: Vec<String> }
+
+pub fn route_str(segs: &[String]) -> String {
+    if segs.is_empty() { "/".to_string() } else { segs.iter().map(|s| format!("/{s}")).collect() }
+}
+
+pub fn all_routes(max_depth: usize) -> Vec<Vec<String>> {
+    let mut out = vec![vec![]];
+    let mut frontier: Vec<Vec<String>> = vec![vec![]];
+    for _ in 0..max_depth {
+        let mut next = vec![];
+        for r in &frontier { for s in SEGS { let mut n = r.clone(); n.push(s.to_string()); next.push(n); } }
+        out.extend(next.iter().cloned());
+        frontier = next;
+    }
+    out
+}
+
+fn mdesc(segs: &[String], method: &str) -> MethodDesc {
+    let n = segs.iter().filter(|s| is_param(s)).count().min(2) as u8;
+    MethodDesc { method: method.to_string(), hid: format!("{method} {}", route_str(segs)), n_params: n, local_fangs: vec![] }
+}
+
+fn route_item(full: &[String], strip: usize, methods: &[String]) -> ItemDesc {
+    ItemDesc::Route { path: route_str(&full[strip..]), methods: methods.iter().map(|m| mdesc(full, m)).collect() }
+}
+
+fn app(items: Vec<ItemDesc>) -> AppDesc { AppDesc { fangs: vec![], with_form: false, items } }
+
+/// All declaration shapes of one route set (deduplicated), each with a name.
+pub fn shapes(set: &[RouteSpec]) -> Vec<(String, AppDesc)> {
+    let mut out: Vec<(String, AppDesc)> = Vec::new();
+    let mut push = |name: String, a: AppDesc| { if !out.iter().any(|(_, x)| *x == a) { out.push((name, a)) } };
+
+    let flat = app(set.iter().map(|r| route_item(&r.segs, 0, &r.methods)).collect());
+    push("flat".into(), flat.clone());
+
+    // split: one HandlerSet per method
+    push("split".into(), app(set.iter().flat_map(|r| r.methods.iter().map(|m| route_item(&r.segs, 0, std::slice::from_ref(m)))).collect()));
+
+    // mount-first: all routes sharing a first segment under one mount
+    {
+        let mut items = vec![];
+        let mut firsts: Vec<String> = vec![];
+        for r in set { if let Some(f) = r.segs.first() { if !firsts.contains(f) { firsts.push(f.clone()) } } }
+        for r in set.iter().filter(|r| r.segs.is_empty()) { items.push(route_item(&r.segs, 0, &r.methods)) }
+        for f in &firsts {
+            let child = app(set.iter().filter(|r| r.segs.first() == Some(f)).map(|r| route_item(&r.segs, 1, &r.methods)).collect());
+            items.push(ItemDesc::Mount { prefix: format!("/{f}"), app: child });
+        }
+        push("mount1".into(), app(items));
+    }
+    // mount-two: routes of depth >= 2 under a two-segment mount prefix
+    {
+        let mut items = vec![];
+        let mut heads: Vec<Vec<String>> = vec![];
+        for r in set { if r.segs.len() >= 2 { let h = r.segs[..2].to_vec(); if !heads.contains(&h) { heads.push(h) } } }
+        for r in set.iter().filter(|r| r.segs.len() < 2) { items.push(route_item(&r.segs, 0, &r.methods)) }
+        for h in &heads {
+            let child = app(set.iter().filter(|r| r.segs.len() >= 2 && r.segs[..2] == h[..]).map(|r| route_item(&r.segs, 2, &r.methods)).collect());
+            items.push(ItemDesc::Mount { prefix: route_str(h), app: child });
+        }
+        if !heads.is_empty() { push("mount2".into(), app(items)); }
+    }
+    // nested: /s1 -> (/s2 -> rest)
+    {
+        let mut items = vec![];
+        let mut firsts: Vec<String> = vec![];
+        for r in set { if let Some(f) = r.segs.first() { if !firsts.contains(f) { firsts.push(f.clone()) } } }
+        for r in set.iter().filter(|r| r.segs.is_empty()) { items.push(route_item(&r.segs, 0, &r.methods)) }
+        let mut any_deep = false;
+        for f in &firsts {
+            let mut citems = vec![];
+            let group: Vec<&RouteSpec> = set.iter().filter(|r| r.segs.first() == Some(f)).collect();
+            for r in group.iter().filter(|r| r.segs.len() == 1) { citems.push(route_item(&r.segs, 1, &r.methods)) }
+            let mut seconds: Vec<String> = vec![];
+            for r in &group { if r.segs.len() >= 2 && !seconds.contains(&r.segs[1]) { seconds.push(r.segs[1].clone()) } }
+            for s2 in &seconds {
+                any_deep = true;
+                let gchild = app(group.iter().filter(|r| r.segs.len() >= 2 && r.segs[1] == *s2).map(|r| route_item(&r.segs, 2, &r.methods)).collect());
+                citems.push(ItemDesc::Mount { prefix: format!("/{s2}"), app: gchild });
+            }
+            items.push(ItemDesc::Mount { prefix: format!("/{f}"), app: app(citems) });
+        }
+        if any_deep { push("nested".into(), app(items)); }
+    }
+    // inline: the flat application used as a routing item of an otherwise empty application
+    push("inline".into(), app(vec![ItemDesc::Inline { app: flat.clone() }]));
+    // mount-one(i): only route i is mounted under its first segment
+    if set.len() >= 2 {
+        for (i, r) in set.iter().enumerate() {
+            if r.segs.is_empty() { continue }
+            let mut items = vec![];
+            for (j, o) in set.iter().enumerate() {
+                if i == j {
+                    items.push(ItemDesc::Mount { prefix: format!("/{}", r.segs[0]), app: app(vec![route_item(&r.segs, 1, &r.methods)]) });
+                } else { items.push(route_item(&o.segs, 0, &o.methods)) }
+            }
+            push(format!("mount-one{i}"), app(items));
+        }
+    }
+    out
+}
+
+pub fn orders(a: &AppDesc, all: bool) -> Vec<AppDesc> {
+    let n = a.items.len();
+    if n <= 1 { return vec![a.clone()] }
+    let perms: Vec<Vec<usize>> = if n <= 3 || (all && n <= 4) { permutations(n) } else {
+        let id: Vec<usize> = (0..n).collect();
+        let mut v = vec![id.clone(), id.iter().rev().cloned().collect()];
+        let mut rot = id.clone(); rot.rotate_left(1); v.push(rot);
+        v
+    };
+    perms.into_iter().map(|p| AppDesc { fangs: a.fangs.clone(), with_form: a.with_form, items: p.iter().map(|&i| a.items[i].clone()).collect() }).collect()
+}
+
+/// Request alphabet of one route set.
+pub fn requests(set: &[RouteSpec], quick: bool) -> Vec<(String, String)> {
+    let mut statics: Vec<String> = vec![];
+    for r in set { for s in &r.segs { if !is_param(s) && !statics.contains(s) { statics.push(s.clone()) } } }
+    let mut segs: Vec<String> = vec![];
+    let mut add = |s: String| { if !segs.contains(&s) { segs.push(s) } };
+    for s in &statics { add(s.clone()); }
+    for s in &statics { add(format!("{s}c")); }                                  // one-byte extension
+    for s in &statics { if s.len() > 1 { add(s[..s.len() - 1].to_string()) } }   // proper prefix
+    add("x".into()); add("".into()); add("%61".into()); add("a%2Fb".into());
+    let max_depth = set.iter().map(|r| r.segs.len()).max().unwrap_or(0);
+    let mut paths: Vec<Vec<String>> = vec![vec![]];
+    let mut frontier: Vec<Vec<String>> = vec![vec![]];
+    for _ in 0..(max_depth + 1) {
+        let mut next = vec![];
+        for p in &frontier { for s in &segs { let mut n = p.clone(); n.push(s.clone()); next.push(n); } }
+        paths.extend(next.iter().cloned());
+        frontier = next;
+    }
+    let mut out = vec![];
+    for p in &paths {
+        let base = if p.is_empty() { "/".to_string() } else { p.iter().map(|s| format!("/{s}")).collect::<String>() };
+        let mut variants = vec![base.clone()];
+        if !p.is_empty() { variants.push(format!("{base}/")); }
+        if p.len() <= 1 { variants.push(format!("{base}//")); }
+        if p.is_empty() { variants = vec!["/".into(), "//".into(), "///".into()]; }
+        let deep = p.len() > max_depth;
+        for v in variants {
+            for m in ["GET", "POST", "HEAD"] { out.push((m.to_string(), v.clone())) }
+            if !deep && !(quick && p.len() == max_depth && max_depth >= 2) {
+                for m in ["PUT", "DELETE", "OPTIONS", "PATCH"] { out.push((m.to_string(), v.clone())) }
+            }
+        }
+    }
+    out
+}
+
+pub fn pct_decode(s: &str) -> Option<String> {
+    let b = s.as_bytes();
+    let mut out = Vec::new();
+    let mut i = 0;
+    while i < b.len() {
+        if b[i] == b'%' {
+            let h = std::str::from_utf8(b.get(i + 1..i + 3)?).ok()?;
+            out.push(u8::from_str_radix(h, 16).ok()?);
+            i += 3;
+        } else { out.push(b[i]); i += 1 }
+    }
+    String::from_utf8(out).ok()
+}
+
+#[derive(Clone, Debug, PartialEq, Eq)]
+pub enum Observed {
+    Handler { hid: String, params: Vec<String>, status: u16 },
+    NoHandler { status: u16 },
+    Broken(String),
+}
+
+pub fn observe(o: &Outcome, method: &str) -> Observed {
+    match o {
+        Outcome::Response { parsed: Ok(p), .. } => match p.header("X-H") {
+            Some(h) => {
+                let mut parts = h.split('.');
+                let hid = parts.next().and_then(appgen::unhex);
+                let params: Option<Vec<String>> = parts.map(appgen::unhex).collect();
+                match (hid, params) {
+                    (Some(hid), Some(params)) => {
+                        // identity must also be in the body (except for HEAD)
+                        let mut want = hid.clone(); for q in &params { want.push('|'); want.push_str(q); }
+                        if method != "HEAD" && p.body != want.as_bytes() { return Observed::Broken(format!("body `{}` does not echo `{want}`", p.body.escape_ascii())) }
+                        if method == "HEAD" && !p.body.is_empty() { return Observed::Broken("HEAD response with a body".into()) }
+                        Observed::Handler { hid, params, status: p.status }
+                    }
+                    _ => Observed::Broken(format!("unreadable X-H `{h}`")),
+                }
+            }
+            None => Observed::NoHandler { status: p.status },
+        },
+        other => Observed::Broken(other.kind()),
+    }
+}
+
+fn table_of(set: &[RouteSpec]) -> Vec<Entry> {
+    set.iter().flat_map(|r| r.methods.iter().map(|m| Entry { segs: r.segs.clone(), method: m.clone(), hid: format!("{m} {}", route_str(&r.segs)) })).collect()
+}
+
+/// the input-shape feature that enters the class id
+fn feature(set: &[RouteSpec], path: &str, expected: &BTreeSet<Match>) -> &'static str {
+    let req: Vec<&str> = path.trim_start_matches('/').split('/').collect();
+    let three = expected.iter().any(|m| matches!(m, Match::Handler { raw_params, .. } if raw_params.len() > 2));
+    if three { return "params>2" }
+    if path.contains("//") || path == "//" { return "empty-segment" }
+    let mut ext = false; let mut pre = false;
+    for r in set { for (i, s) in r.segs.iter().enumerate() {
+        if is_param(s) { continue }
+        if let Some(q) = req.get(i) {
+            if q.len() > s.len() && q.starts_with(s.as_str()) { ext = true }
+            if q.len() < s.len() && !q.is_empty() && s.starts_with(q) { pre = true }
+        }
+    } }
+    if ext { "extends-static-sibling" } else if pre { "prefix-of-static-sibling" } else if path.contains('%') { "percent-encoded" } else { "plain" }
+}
+
+fn method_kind(m: &str) -> &'static str { match m { "HEAD" => "HEAD", "OPTIONS" => "OPTIONS", _ => "std" } }
+
+struct Variant { shape: String, order: usize, desc: AppDesc, router: ohkami::__verif__::VerifRouter }
+
+pub fn check_set(ctx: &mut Ctx, set: &[RouteSpec], all_orders: bool, only: Option<(&str, &str)>) {
+    let table = table_of(set);
+    let mut variants: Vec<Variant> = vec![];
+    for (name, desc) in shapes(set) {
+        for (oi, d) in orders(&desc, all_orders).into_iter().enumerate() {
+            match appgen::build(&d) {
+                Ok(router) => { ctx.states += 1; variants.push(Variant { shape: name.clone(), order: oi, desc: d, router }) }
+                Err(p) => {
+                    if name == "flat" && oi == 0 {
+                        // the framework rejects this route set altogether: outside the quantifier
+                        ctx.skip();
+                        ctx.extra.entry("rejected_at_registration_example").or_insert_with(|| json!({"set": set_json(set), "panic": p}));
+                        return
+                    }
+                    // a shape/order of an accepted route set is rejected: registration itself depends on the declaration
+                    ctx.violation(&format!("C01/registration/{name}/rejected:{}", panic_kind(&p)), true,
+                        || json!({"set": set_json(set), "shape": name, "order": oi, "app": d, "observed": format!("panic: {p}")}));
+                }
+            }
+        }
+    }
+    if variants.is_empty() { return }
+    let reqs: Vec<(String, String)> = match only { Some((m, p)) => vec![(m.to_string(), p.to_string())], None => requests(set, ctx.quick()) };
+    let has_param_route = set.iter().any(|r| r.segs.iter().any(|s| is_param(s)));
+    for (method, path) in &reqs {
+        let expected = admissible(&table, method, path);
+        let raw = app::request(method, path, &[("Host", "h")], b"");
+        let feat = feature(set, path, &expected);
+        let collision = feat == "extends-static-sibling" || feat == "prefix-of-static-sibling";
+        // a route matches the path for some other method: 405 would be as good as 404 (the statement only fixes 404 for "no route matches")
+        let route_matches_other_method = ["GET", "PUT", "POST", "PATCH", "DELETE"].iter().any(|m| admissible(&table, m, path).iter().any(|x| matches!(x, Match::Handler { .. })));
+        let mut first: Option<(String, usize, Observed)> = None;
+        for v in &variants {
+            ctx.transitions += 1;
+            appgen::trace_clear();
+            let outcome = app::oneshot(&v.router, &raw);
+            let obs = observe(&outcome, method);
+            // (1) reference
+            let mut verdict_ok = false;
+            for m in &expected {
+                let ok = match (m, &obs) {
+                    (Match::Handler { hid, raw_params }, Observed::Handler { hid: oh, params, status }) => {
+                        let dec: Option<Vec<String>> = raw_params.iter().map(|p| pct_decode(p)).collect();
+                        match dec { Some(dec) => *status == 200 && hid == oh && params[..] == dec[..dec.len().min(2)], None => false }
+                    }
+                    (Match::NoHandler, Observed::NoHandler { status }) => *status == 404 || (*status == 405 && route_matches_other_method),
+                    _ => false,
+                };
+                if ok { verdict_ok = true; break }
+            }
+            let witness = |extra: Value| json!({"set": set_json(set), "shape": v.shape, "order": v.order, "app": v.desc, "method": method, "path": path,
+                "expected_any_of": expected.iter().map(|m| format!("{m:?}")).collect::<Vec<_>>(), "observed": format!("{obs:?}"), "note": extra});
+            if verdict_ok {
+                if expected.len() > 1 { ctx.ambiguous(&format!("{}:{}", feat, obs_key(&obs))) }
+                else { ctx.pass(&format!("{}:{}:{}", method_kind(method), feat, obs_key(&obs)), has_param_route || set.len() > 1, collision) }
+            } else {
+                let symptom = match (&obs, expected.iter().next().unwrap()) {
+                    (Observed::Broken(k), _) => format!("broken:{k}"),
+                    (Observed::NoHandler { status }, Match::Handler { .. }) => format!("no-handler-ran({status})-should-run"),
+                    (Observed::NoHandler { status }, Match::NoHandler) => format!("wrong-status({status})"),
+                    (Observed::Handler { .. }, Match::NoHandler) => "handler-ran-should-404".to_string(),
+                    (Observed::Handler { hid, .. }, Match::Handler { hid: eh, .. }) => if hid != eh { "wrong-handler".to_string() } else { "wrong-param".to_string() },
+                };
+                ctx.violation(&format!("C01/{}/{}/{}", method_kind(method), feat, symptom), true, || witness(json!("reference matcher disagrees")));
+            }
+            // (2) the outcome must not depend on the registration order (same shape, other order of the items)
+            match &first {
+                Some((shape, fo, f)) if *shape == v.shape => if *f != obs {
+                    let (fo, f) = (*fo, f.clone());
+                    ctx.violation(&format!("C01/order-dependence/{}/{}", feat, v.shape), true,
+                        || witness(json!({"same_shape_other_order": {"order": fo, "observed": format!("{f:?}")}})));
+                }
+                _ => first = Some((v.shape.clone(), v.order, obs.clone())),
+            }
+        }
+    }
+    ctx.sample(|| json!({"set": set_json(set), "shapes": variants.iter().map(|v| format!("{}#{}", v.shape, v.order)).collect::<Vec<_>>(), "requests": reqs.len(), "first_requests": reqs.iter().take(4).collect::<Vec<_>>()}));
+}
+
+fn obs_key(o: &Observed) -> String {
+    match o {
+        Observed::Handler { params, .. } => format!("handler/{}p", params.len()),
+        Observed::NoHandler { status } => format!("none/{status}"),
+        Observed::Broken(k) => format!("broken/{k}"),
+    }
+}
+
+fn set_json(set: &[RouteSpec]) -> Value {
+    json!(set.iter().map(|r| json!({"route": route_str(&r.segs), "methods": r.methods})).collect::<Vec<_>>())
+}
+
+fn set_from_json(v: &Value) -> Vec<RouteSpec> {
+    v.as_array().expect("set").iter().map(|r| RouteSpec {
+        segs: appgen::split_route(r["route"].as_str().unwrap()),
+        methods: r["methods"].as_array().unwrap().iter().map(|m| m.as_str().unwrap().to_string()).collect(),
+    }).collect()
+}
+
+pub fn run(ctx: &mut Ctx) {
+    app::pin_clock();
+    let quick = ctx.quick();
+    let msets: Vec<Vec<String>> = vec![vec!["GET".into()], vec!["POST".into()], vec!["GET".into(), "POST".into()]];
+    // (depth bound, set size) pairs
+    let plans: Vec<(usize, usize)> = if quick { vec![(2, 1), (2, 2)] } else { vec![(3, 1), (3, 2), (2, 3)] };
+    let mut done_sets: std::collections::HashSet<Vec<(Vec<String>, Vec<String>)>> = Default::default();
+    for (depth, size) in plans {
+        let routes = all_routes(depth);
+        for combo in combinations(routes.len(), size) {
+            // every assignment of method sets
+            let total = msets.len().pow(size as u32);
+            for mut code in 0..total {
+                // quick tier: for pairs, only same-method-set assignments plus the mixed ones that differ (all 9 are kept for depth<=1 pairs)
+                let mut set = vec![];
+                for &ri in &combo { set.push(RouteSpec { segs: routes[ri].clone(), methods: msets[code % msets.len()].clone() }); code /= msets.len(); }
+                if size == 3 && !(set.iter().all(|r| r.methods == set[0].methods) || set.iter().map(|r| r.methods.len()).sum::<usize>() == 4) { continue }
+                if quick && size == 2 && set.iter().map(|r| r.segs.len()).sum::<usize>() >= 4 && set[0].methods != set[1].methods && set[0].methods.len() + set[1].methods.len() != 3 { continue }
+                let key: Vec<_> = set.iter().map(|r| (r.segs.clone(), r.methods.clone())).collect();
+                if !done_sets.insert(key) { continue }
+                if !ctx.mine() { continue }
+                if ctx.out_of_time() { break }
+                check_set(ctx, &set, !quick, None);
+            }
+        }
+    }
+    // single-route applications with every non-empty subset of the five registrable methods
+    let five = ["GET", "PUT", "POST", "PATCH", "DELETE"];
+    for route in all_routes(if quick { 1 } else { 2 }) {
+        for mask in 1u32..32 {
+            let methods: Vec<String> = five.iter().enumerate().filter(|(i, _)| mask & (1 << i) != 0).map(|(_, m)| m.to_string()).collect();
+            if methods.len() <= 2 && methods.iter().all(|m| m == "GET" || m == "POST") { continue } // already covered
+            if !ctx.mine() { continue }
+            check_set(ctx, &[RouteSpec { segs: route.clone(), methods }], false, None);
+        }
+    }
+    ctx.extra.insert("rule".into(), json!("case = (route set + method sets, declaration shape, registration order, request); configurations are built by the real registration/finalization code, requests go through the real Request::read / Router::handle / Response::send; non-trivial = the route set has a param route or more than one route; collision = a request segment is a strict byte extension or a strict prefix of a static pattern at the same position (the byte-prefix shortcut of the radix matcher)"));
+    ctx.extra.insert("bounds".into(), json!({"segments": SEGS, "plans(depth,set size)": if quick { json!([[2,1],[2,2]]) } else { json!([[3,1],[3,2],[2,3]]) }, "method_sets": ["GET","POST","GET+POST", "all 31 subsets on single-route apps"], "shapes": ["flat","split","mount1","mount2","nested","inline","mount-one(i)"], "orders": if quick { "all permutations up to 3 items, 3 orders beyond" } else { "all permutations up to 4 items" }}));
+    ctx.traces_validated = ctx.transitions;
+}
+
+pub fn replay(ctx: &mut Ctx, case: &Value) {
+    app::pin_clock();
+    let set = set_from_json(&case["set"]);
+    let (m, p) = (case["method"].as_str().map(str::to_string), case["path"].as_str().map(str::to_string));
+    match (m, p) {
+        (Some(m), Some(p)) => check_set(ctx, &set, true, Some((&m, &p))),
+        _ => check_set(ctx, &set, true, None),
+    }
+}
